@@ -335,8 +335,12 @@ def _normalise_try_fold(body, bi, closures):
     if cd is None or cd[0] not in closures or closures[cd[0]]["arg_count"] != 3:
         return False
     dest = t["dest"]
-    if not (dest.get("ty") or "").startswith(RESULT):
+    dty = dest.get("ty") or ""
+    if not (dty.startswith(RESULT) or dty.startswith(OPTION)):
         return False
+    # the step function answers Result (Ok continues, Err ends) or Option (Some continues, None ends)
+    is_res = dty.startswith(RESULT)
+    adt, good, gi, bad, bi_ = (RESULT, "Ok", 0, "Err", 1) if is_res else (OPTION, "Some", 1, "None", 0)
     span = t.get("span", {"s": "", "x": False})
     bld = _Builder(body, span)
     cont = t["t"]
@@ -347,12 +351,15 @@ def _normalise_try_fold(body, bi, closures):
     item = bld.local("")
     acc = bld.local("")
     res = bld.local(dest.get("ty") or "")
-    done = bld.block([bld.assign(copy.deepcopy(dest), bld.agg(RESULT, "Ok", 0, [{"l": acc, "p": [], "ty": "", "k": "move"}]))], bld.goto(cont))
-    fail = bld.block([bld.assign(copy.deepcopy(dest), {"k": "through", "adt": RESULT, "variant": "Err", "op": {"l": res, "p": [], "ty": "", "k": "move"}})], bld.goto(cont))
+    done = bld.block([bld.assign(copy.deepcopy(dest), bld.agg(adt, good, gi, [{"l": acc, "p": [], "ty": "", "k": "move"}]))], bld.goto(cont))
+    if is_res:
+        fail = bld.block([bld.assign(copy.deepcopy(dest), {"k": "through", "adt": RESULT, "variant": "Err", "op": {"l": res, "p": [], "ty": "", "k": "move"}})], bld.goto(cont))
+    else:
+        fail = bld.block([bld.assign(copy.deepcopy(dest), bld.agg(OPTION, "None", 0, []))], bld.goto(cont))
     head = bld.block([], {"k": "unreachable", "span": span})
-    keep = bld.block([bld.assign(bld.plain(acc), {"k": "use", "op": bld.payload(res, "Ok", 0)})], bld.goto(head))
-    after = bld.block([bld.assign(bld.plain(d2, "isize"), {"k": "discr", "place": {"l": res, "p": [], "ty": ""}, "adt": RESULT, "variants": VARIANTS[RESULT]})],
-                      {"k": "switch", "discr": {"l": d2, "p": [], "ty": "isize", "k": "move"}, "targets": [[0, keep], [1, fail]], "otherwise": fail,
+    keep = bld.block([bld.assign(bld.plain(acc), {"k": "use", "op": bld.payload(res, good, gi)})], bld.goto(head))
+    after = bld.block([bld.assign(bld.plain(d2, "isize"), {"k": "discr", "place": {"l": res, "p": [], "ty": ""}, "adt": adt, "variants": VARIANTS[adt]})],
+                      {"k": "switch", "discr": {"l": d2, "p": [], "ty": "isize", "k": "move"}, "targets": [[gi, keep], [bi_, fail]], "otherwise": fail,
                        "span": span, "combinator": t["callee"]})
     call_pre = _apply_fn(bld, body, closures, args[2], [{"l": acc, "p": [], "ty": "", "k": "move"}, {"l": item, "p": [], "ty": "", "k": "move"}], bld.plain(res), after)
     if call_pre is None:
@@ -657,9 +664,64 @@ def thread_known_variants(body):
 _ACTIVE = dict(COMBINATORS)
 
 
+def _mentions_local(x, l):
+    if isinstance(x, dict):
+        if x.get("l") == l and "p" in x:
+            return True
+        return any(_mentions_local(v, l) for v in x.values())
+    if isinstance(x, list):
+        return any(_mentions_local(v, l) for v in x)
+    return False
+
+
+def lower_mem_replace(body):
+    """`old = mem::replace(&mut PLACE, new)` is `old = PLACE; PLACE = new`: written out, so that a save-and-set of a field
+    (`let saved = mem::replace(&mut ctx.offset, offset)`) is read as the two statements it stands for."""
+    n = 0
+    for bl in body["blocks"]:
+        t = bl["term"]
+        if not (t["k"] == "call" and t["callee"] == "std::mem::replace" and len(t["args"]) == 2 and t.get("t") is not None):
+            continue
+        r = t["args"][0]
+        if r.get("k") not in ("copy", "move") or r.get("p"):
+            continue
+        defs = [st for b2 in body["blocks"] for st in b2["stmts"] if st["k"] == "assign" and not st["place"]["p"] and st["place"]["l"] == r["l"]]
+        if len(defs) != 1 or defs[0]["rv"]["k"] != "ref" or not defs[0]["rv"].get("mut") or defs[0] not in bl["stmts"]:
+            continue
+        pl = copy.deepcopy(defs[0]["rv"]["place"])
+        dead = [defs[0]]
+        # `&mut *r` with `r = &mut PLACE` (the re-borrow the compiler inserts): PLACE itself
+        for _ in range(4):
+            if not (pl["p"] and pl["p"][0] == "deref"):
+                break
+            inner = [st for b2 in body["blocks"] for st in b2["stmts"] if st["k"] == "assign" and not st["place"]["p"] and st["place"]["l"] == pl["l"]]
+            if len(inner) != 1 or inner[0]["rv"]["k"] != "ref" or inner[0] not in bl["stmts"]:
+                break
+            dead.append(inner[0])
+            base = copy.deepcopy(inner[0]["rv"]["place"])
+            base["p"] = list(base["p"]) + list(pl["p"][1:])
+            base["ty"] = pl.get("ty", base.get("ty"))
+            pl = base
+        span = t.get("span", {"s": "", "x": False})
+        bl["stmts"].append({"k": "assign", "place": copy.deepcopy(t["dest"]), "rv": {"k": "use", "op": dict(pl, k="copy")}, "span": span})
+        bl["stmts"].append({"k": "assign", "place": pl, "rv": {"k": "use", "op": copy.deepcopy(t["args"][1])}, "span": span})
+        bl["term"] = {"k": "goto", "t": t["t"], "span": span, "lowered": "std::mem::replace"}
+        # the borrows that only fed the call are gone with it
+        for st in dead:
+            l = st["place"]["l"]
+            others = [x for b2 in body["blocks"] for x in b2["stmts"] + [b2["term"]] if x is not st and _mentions_local(x, l)]
+            if not others:
+                bl["stmts"].remove(st)
+        n += 1
+    return n
+
+
 def normalise_combinators(bodies, adts=None, cli=False):
     from . import inline as _inline
     _inline._BODIES = bodies
+    for b_ in bodies:
+        if b_.get("promoted") is None:
+            lower_mem_replace(b_)
     _ACTIVE.clear()
     _ACTIVE.update(COMBINATORS)
     if cli:
